@@ -108,7 +108,7 @@ pub struct ScriptReader {
 }
 impl ScriptReader {
     pub fn new(stream: Vec<u8>, script: VecDeque<(u64, u64, u64)>) -> Self {
-        ScriptReader { stream, pos: 0, script, log: Vec::new() }
+        ScriptReader { stream, pos: 0, script, log: Vec::with_capacity(4096) }
     }
 }
 impl Read for ScriptReader {
@@ -143,7 +143,7 @@ pub struct ScriptWriter {
 }
 impl ScriptWriter {
     pub fn new(script: VecDeque<(u64, u64)>) -> Self {
-        ScriptWriter { script, log: Vec::new() }
+        ScriptWriter { script, log: Vec::with_capacity(65536) }
     }
 }
 impl Write for ScriptWriter {
